@@ -178,6 +178,9 @@ func R1Bounds(c *Ctx, scope []*ssa.Function, ruleSuffix string, floor int) {
 				if !ok {
 					ok = splitOnPhi(c, loads, fn, in)
 				}
+				if !ok {
+					ok = proveAtCallers(c, fn, in)
+				}
 				construct := describeIdx(in)
 				fname := FuncShort(fn)
 				pos := c.pos(in.Pos())
@@ -189,8 +192,7 @@ func R1Bounds(c *Ctx, scope []*ssa.Function, ruleSuffix string, floor int) {
 					c.R.Ok(rule, fname, construct, pos, "in bounds on every path (difference-constraint proof from dominating conditions)", true)
 					continue
 				}
-				key := rule + "|" + fname + "|" + construct
-				if why, isRev := reviewed[stripSuffix(key)]; isRev {
+				if why, isRev := c.reviewedWhy(reviewed, fn, fname, construct); isRev {
 					rev++
 					c.R.Add(&core.Ob{Rule: rule, Key: c.R.MakeKey(rule, fname, construct), Pos: pos, Func: fname, Construct: construct, Status: core.Discharged, Reason: "reviewed: " + why, NonTrivial: true})
 					continue
@@ -220,15 +222,89 @@ func loadReviewed(c *Ctx) map[string]string {
 	if err != nil {
 		return out
 	}
-	var rows []struct{ Key, Why string }
+	var rows []struct{ Key, NKey, Why string }
 	if err := json.Unmarshal(b, &rows); err != nil {
 		c.R.Broken = append(c.R.Broken, "tables/bounds_reviewed.json: "+err.Error())
 		return out
 	}
 	for _, r := range rows {
 		out[r.Key] = r.Why
+		if r.NKey != "" {
+			out["N:"+r.NKey] = r.Why
+		}
 	}
 	return out
+}
+
+var reIdent = regexp.MustCompile(`[A-Za-z_][A-Za-z0-9_]*`)
+
+// localNames: the names a maintainer can change without changing behaviour — parameters, results, locals.
+func localNames(fn *ssa.Function) map[string]bool {
+	names := map[string]bool{}
+	for f := fn; f != nil; f = f.Parent() {
+		for _, p := range f.Params {
+			names[p.Name()] = true
+		}
+		for _, fv := range f.FreeVars {
+			names[fv.Name()] = true
+		}
+		for _, l := range f.Locals {
+			names[l.Comment] = true
+		}
+		for _, b := range f.Blocks {
+			for _, in := range b.Instrs {
+				switch x := in.(type) {
+				case *ssa.Phi:
+					names[x.Comment] = true
+				case *ssa.Alloc:
+					names[x.Comment] = true
+				}
+			}
+		}
+	}
+	delete(names, "")
+	delete(names, "rangeindex")
+	delete(names, "complit")
+	delete(names, "makeslice")
+	delete(names, "varargs")
+	return names
+}
+
+// normalConstruct blanks local names and SSA register names in a construct, so that a reviewed row survives a rename.
+func normalConstruct(s string, names map[string]bool) string {
+	return reIdent.ReplaceAllStringFunc(s, func(id string) string {
+		if names[id] {
+			return "·"
+		}
+		if len(id) > 1 && id[0] == 't' {
+			digits := true
+			for _, ch := range id[1:] {
+				if ch < '0' || ch > '9' {
+					digits = false
+				}
+			}
+			if digits {
+				return "·"
+			}
+		}
+		return id
+	})
+}
+
+// reviewedWhy looks a construct up in the reviewed table: by its readable key, or by its rename-proof form.
+func (c *Ctx) reviewedWhy(reviewed map[string]string, fn *ssa.Function, fname, construct string) (string, bool) {
+	if w, ok := reviewed["|"+fname+"|"+construct]; ok {
+		if os.Getenv("HV_NKEYS") != "" && fn != nil {
+			fmt.Printf("NKEY\t|%s|%s\t|%s|%s\n", fname, construct, fname, normalConstruct(construct, localNames(fn)))
+		}
+		return w, true
+	}
+	if fn != nil {
+		if w, ok := reviewed["N:|"+fname+"|"+normalConstruct(construct, localNames(fn))]; ok {
+			return w, true
+		}
+	}
+	return "", false
 }
 
 // mapLiteralMinLen: m is a load of a package-level map variable that is
@@ -441,7 +517,7 @@ func R1Asserts(c *Ctx, scope []*ssa.Function, ruleSuffix string, floor int) {
 				construct := AccessPath(ta.X) + ".(" + types.TypeString(ta.AssertedType, func(p *types.Package) string { return p.Name() }) + ")"
 				okD, why := c.assertDischarged(fn, ta)
 				if !okD {
-					if w, isRev := reviewed["|"+FuncShort(fn)+"|"+construct]; isRev {
+					if w, isRev := c.reviewedWhy(reviewed, fn, FuncShort(fn), construct); isRev {
 						okD, why = true, "reviewed: "+w
 					}
 				}
